@@ -7,6 +7,8 @@
    interleaving of their steps (transaction-id allocation, chaining, hand-off to the batcher, persistence), every
    batch composition, store failures ([APersistFail]) and crashes ([ACrash]) at every point, each followed by a
    re-initialisation from the persisted log, any number of times.
+   The action lists also contain the cancellation of a request's context ([ACancel], [AResumeCancelled]) and transient
+   failures of the store reads of the write path ([AResumeReadFail]); neither touches the append path.
    Hashes are abstracted: [e_uid] stands for the hash of an entry, [e_prev] for the hash that went into it. *)
 From FL Require Import Engine.Model Engine.Spec Engine.E1Base Engine.E1Inv Engine.E1Thms Engine.E1V0.
 Local Open Scope nat_scope.
